@@ -55,7 +55,8 @@ spherical_lens_eq = spherical_lens_law.law.subs({
     spherical_lens_law.curvature_radius_lens: curvature_radius,
     spherical_lens_law.lens_refraction_index: -1 * refraction_index,
     spherical_lens_law.medium_refraction_index: refraction_index
-})
+},
+    simultaneous=True)  # the lens refraction index itself appears among the new values
 
 # Paste distances from object and image in law of spherical lens
 spherical_lens_equation = spherical_lens_eq.subs({
